@@ -23,7 +23,7 @@ TRUSTED = ["abstract group contract GC; SHA-256 uninterpreted, no collisions amo
 ASSUMPTIONS = ["'different group' is modelled as different encoding widths, or same field with another generator; two "
                "unrelated groups of identical widths are only covered by the ground facts on the shipped sets"]
 
-VARIANTS = ["same", "M", "N", "S", "MNcat", "gen", "group"]
+VARIANTS = ["same", "M", "N", "S", "MNcat", "MNswap", "gen", "group"]
 
 
 def jobs(tier):
@@ -41,7 +41,7 @@ def jobs(tier):
 
 
 def _uses(cls, v):
-    return v in ("gen", "group") or (cls in "AB" and v in ("M", "N", "MNcat")) or (cls == "S" and v == "S")
+    return v in ("gen", "group") or (cls in "AB" and v in ("M", "N", "MNcat", "MNswap")) or (cls == "S" and v == "S")
 
 
 def job_cross(J, qn, k1, k2, variant):
@@ -60,6 +60,10 @@ def job_cross(J, qn, k1, k2, variant):
             p2 = P._Params(g1, M=b"a", N=b"bc")
             ctx.assume((p1.M.log - p2.M.log) % q != 0)
             ctx.assume((p1.N.log - p2.N.log) % q != 0)
+        elif variant == "MNswap":
+            # the same two elements with their roles exchanged
+            p2 = P._Params(g1, M=b"N", N=b"M")
+            ctx.assume((p1.M.log - p1.N.log) % q != 0)
         elif variant == "same":
             p2 = P._Params(g1)
         elif variant in ("M", "N", "S"):
@@ -197,6 +201,8 @@ def oracle_wrongparams(k1, k2, variant, pw, idA, idB, x):
         if variant == "MNcat":
             p1 = _Params(g, M=b"ab", N=b"c")
             p2 = _Params(g, M=b"a", N=b"bc")
+        elif variant == "MNswap":
+            p2 = _Params(g, M=b"N", N=b"M")
         elif variant == "same":
             p2 = _Params(g)
         elif variant in ("M", "N", "S"):
